@@ -23,7 +23,7 @@ PROP = "C20"
 LEVEL = "fault_enumeration"
 RULE = (
     "for every writer in {extract_samps, extract_chans, extract_bands, apply_channel_mask, clean_rfi, invert_freq, downsample, subband, "
-    "remove_zerodm, FilterbankBlock.to_file, TimeSeries.to_tim, FourierSeries.to_spec} x gulp in {1,2,3,N/2,N,10N} x depth {8,32,4}: the "
+    "remove_zerodm, requantize, FilterbankBlock.to_file, TimeSeries.to_tim, FourierSeries.to_spec} x gulp in {1,2,3,N/2,N,10N} x depth {8,32,4}: the "
     "history of FileWriter.write/cwrite calls is recorded with an on-disk snapshot after each call (separate descriptor); every crash point "
     "(after each write) must satisfy I1 complete final header, I2 byte-prefix of the final file and extension of the previous state, I3 "
     "FilReader opens it and returns the first k samples; I4 the file is complete when the call returns (before any gc); plus every byte-length "
@@ -38,7 +38,7 @@ ASSUMPTIONS = [
 REQUIRED_OUTCOMES = ["crash_state/ok", "crash_state/partial", "return_complete/ok", "truncation/ok", "truncation/mid_sample"]
 
 WRITERS = ["extract_samps", "extract_chans", "extract_bands", "apply_channel_mask", "clean_rfi", "invert_freq", "downsample", "subband",
-           "remove_zerodm", "block.to_file", "ts.to_tim", "fs.to_spec"]
+           "remove_zerodm", "requantize", "block.to_file", "ts.to_tim", "fs.to_spec"]
 N, C = 12, 8
 
 
@@ -84,6 +84,8 @@ def _run_writer(fil, writer, g, wd, tag="o"):
         return [fil.subband(1.0, 2, outfile_name=out, **kw)]
     if writer == "remove_zerodm":
         return [fil.remove_zerodm(outfile_name=out, **kw)]
+    if writer == "requantize":
+        return [fil.requantize(32 if fil.header.nbits != 32 else 8, outfile_name=out, **kw)]
     blk = fil.read_block(0, N)
     if writer == "block.to_file":
         return [blk.to_file(out)]
